@@ -1,6 +1,7 @@
 """Unit `subtype`: is_subtype / is_subtype_not_error / Type::is_no_value / Type::is_error
 (garden_type.rs) and unify / unify_all (checks/type_checker.rs).  Properties C14, C15."""
 import os
+import re
 import sys
 
 HERE = os.path.dirname(os.path.abspath(__file__))
@@ -14,13 +15,30 @@ sys.path.insert(0, HERE)
 from witness_gen import witnesses_for  # noqa: E402,F401  (replay inputs, see witness_gen.py)
 
 GT = "src/garden_type.rs"
+EV = "src/eval.rs"
 TC = "src/checks/type_checker.rs"
 AST = "src/parser/ast.rs"
 
 RLIMIT = 60
 MIN_FUNCTIONS = 8
 
+GLUE_CHECK_TYPE = """
+#[verifier::external_body] pub struct Value { _o: u8 }
+#[verifier::external_body] pub struct Env { _o: u8 }
+#[verifier::external_body] pub struct ErrorMessage { _o: u8 }
+/// the runtime type of a value (Type::from_value)
+pub uninterp spec fn type_of_value(v: Value) -> Type;
+impl Type {
+    #[verifier::external_body]
+    pub fn from_value(v: &Value) -> (r: Type) ensures r == type_of_value(*v) { unimplemented!() }
+}
+#[verifier::external_body]
+pub fn format_type_error(expected: &Type, value: &Value, env: &Env) -> (r: ErrorMessage) { unimplemented!() }
+"""
+
 ASSUMPTIONS = {
+    "Value": "opaque stand-in for values::Value", "Env": "opaque", "ErrorMessage": "opaque", "from_value": "Type::from_value computes the runtime type of a value",
+    "format_type_error": "builds the message only",
     "vs_string_eq_lit": "std: `String == &str` is equality of the character sequences",
     "vs_string_eq": "std: `String == String` / `!=` is (in)equality of the character sequences",
     "vs_string_from_lit": "std: `\"lit\".to_owned()` has the literal's characters",
@@ -167,6 +185,32 @@ def build(tier):
         hints=[("unified_ty = new_unified_ty;", "before",
                 "proof { assert forall|j: int| 0 <= j < __i1 - 1 && sub(tys@[j].0, unified_ty) && sub(unified_ty, new_unified_ty) implies sub(#[trigger] tys@[j].0, new_unified_ty) by { lemma_sub_trans(tys@[j].0, unified_ty, new_unified_ty); } }")],
         props={"C15"}))
+    # C14 at run time: eval.rs check_type (parameter hints, return hints, annotated lets, struct fields) accepts a value
+    # exactly when the type of the value is a subtype of the expected type - the same relation as the checker's
+    u.raw(GLUE_CHECK_TYPE, kind="prelude")
+    u.add_fn(EV, "check_type", contract=Contract(
+        ensures=[("accepts_exactly_the_subtypes", "consistent(type_of_value(*value), *expected) ==> (r is Ok <==> sub(type_of_value(*value), *expected))")],
+        props={"C14"}))
+    # C15 / C14: `==` on Type is the derived structural equality (the assumption behind vq_type_eq)
+    gt_text = u.source(GT).text
+    m_enum = re.search(r"((?:#\[[^\]]*\]\s*|///[^\n]*\n\s*)*)pub\(crate\)\s+enum\s+Type\s*\{", gt_text)
+    derived = bool(m_enum and re.search(r"derive\([^)]*\bPartialEq\b", m_enum.group(1)))
+    manual = len(re.findall(r"impl\s+(?:std::cmp::)?PartialEq\s+for\s+Type\b", gt_text))
+    n_bad = (0 if derived else 1) + manual
+    fname = "type_equality_is_derived"
+    u.fn_props[fname] = both
+    import hashlib
+    u.skeletons[fname] = hashlib.sha256(("%s %d" % (derived, manual)).encode()).hexdigest()[:12]
+    u.items.append({"name": "`enum Type` derives PartialEq and has no hand-written impl", "generated_as": fname, "kind": "slice", "where": GT, "sha256_16": "-", "skeleton": u.skeletons[fname]})
+    oid = "subtype.%s.post[type_eq_is_the_derived_structural_equality]" % fname
+    u.clauses.append((oid, both, "n == 0"))
+    line_ = gt_text.count("\n", 0, m_enum.start()) + 1 if m_enum else 1
+    from gen import Tag
+    tg = Tag("repo", fn=fname, repo_file=GT, repo_line=line_, props=both)
+    u.emit("pub fn %s() -> (n: u64)" % fname, tg)
+    u.raw("    ensures", fn=fname, props=both)
+    u.emit("        n == 0,", Tag("contract", fn=fname, clause=oid, props=both))
+    u.emit("{ %d }  // derive(PartialEq) on enum Type: %s; hand-written impls: %d" % (n_bad, derived, manual), tg)
     u.add_canary_proof()
     u.raw("} // verus!\nfn main() {}")
     return u
